@@ -287,6 +287,7 @@ func runC11(c *Ctx) {
 	c11SubdirRemap(c, pkFI)
 	c11ResolverKept(c, pkImg)
 	c11PublicTransitive(c, pkImg)
+	c11PromotionNeedsPath(c, pkImg)
 	if q := c.P.Pkg("private/pkg/protoencoding"); q != nil {
 		c11ClearBeforeMerge(c, q)
 	}
@@ -295,6 +296,8 @@ func runC11(c *Ctx) {
 	// component is stripped (shared with C07/C15 and C13)
 	ruleOpenTruncates(c, "OPEN-TRUNCATES")
 	c13UntrustedNames(c)
+	c11ArchiveLastWins(c)
+	c11RootsApplied(c)
 
 	// ---- (9) shared rules on the code this property runs through: the image-level --path/--exclude-path filter must
 	// not depend on map iteration order (R-MAPORDER of C02, on package bufimage), and the image writer must report a
